@@ -68,6 +68,11 @@ def unitTangentTowards (r : K → K) (p q : Fin (n + 1) → K) : Fin (n + 1) →
 def angleCos (r : K → K) (p v₁ v₂ : Fin (n + 1) → K) : K :=
   mink (projHyp p (tvNormalizedVec r p v₁)) (projHyp p (tvNormalizedVec r p v₂))
 
+/-- repaired `TangentVector.angle` argument: `np.clip(product, -1, 1)` (the unclamped product can
+round just outside `[-1, 1]` for parallel vectors, and `arccos` then returns NaN) -/
+def angleCosClamped (r : K → K) (p v₁ v₂ : Fin (n + 1) → K) : K :=
+  max (-1) (min 1 (angleCos r p v₁ v₂))
+
 end ordered
 
 /-- `hyperbolic.hyp_to_affine_dist(t)` with `e2 = e^{2t}` supplied: `(e^{2t}-1)/(1+e^{2t})` -/
